@@ -213,6 +213,21 @@ namespace
         add("int_float", ts(leaf("I")), ts(leaf("F")), ts(leaf("F")));
         return v;
     }
+    // depth pool: candidates in which ONE variable occurs at two nesting depths, next to flat competitors. Pool 6 is the same pool with the
+    // two parameters of every candidate exchanged: specificity does not depend on the order in which parameters are listed, so a family
+    // resolved on (a0, a1) and its mirror image resolved on (a1, a0) must select the corresponding candidate (or fail alike).
+    std::vector<Cand> candidatesD(bool mirrored)
+    {
+        std::vector<Cand> v;
+        auto add = [&](const std::string &l, Ty a, Ty b, std::optional<Ty> o) { if (mirrored) v.push_back({l + "~", {std::move(b), std::move(a)}, std::move(o)}); else v.push_back({l, {std::move(a), std::move(b)}, std::move(o)}); };
+        add("V_tslV", leaf("%V"), tsl(leaf("%V"), "#N"), leaf("%V"));
+        add("sig_L", leaf("sig"), leaf("%L"), leaf("%L"));
+        add("int_L", ts(leaf("I")), leaf("%L"), leaf("%L"));
+        add("T_tslT", ts(leaf("$T")), tsl(ts(leaf("$T")), "#N"), ts(leaf("$T")));
+        add("S_R", leaf("%S"), leaf("%R"), leaf("%S"));
+        add("T_tslU", ts(leaf("$T")), tsl(ts(leaf("$U")), "#N"), ts(leaf("$T")));
+        return v;
+    }
     // bundle-inheritance pool
     std::vector<Cand> candidatesB()
     {
@@ -429,9 +444,9 @@ namespace
         auto parts = std::vector<std::string>{};
         { std::string cur; for (char ch : desc) { if (ch == '|') { parts.push_back(cur); cur.clear(); } else cur += ch; } parts.push_back(cur); }
         const int arity = std::stoi(parts.at(0));
-        const std::vector<Cand> pool = arity == 1 ? candidates1() : arity == 2 ? candidates2() : arity == 3 ? candidatesV() : candidatesB();
+        const std::vector<Cand> pool = arity == 1 ? candidates1() : arity == 2 ? candidates2() : arity == 3 ? candidatesV() : arity == 4 ? candidatesB() : candidatesD(arity == 6);
         std::vector<int> fam; { std::string cur; for (char ch : parts.at(1)) { if (ch == ',') { fam.push_back(std::stoi(cur)); cur.clear(); } else cur += ch; } fam.push_back(std::stoi(cur)); }
-        std::vector<Ty> args; { const auto at = arity == 3 ? arg_typesV() : arity == 4 ? arg_typesB() : arg_types(); std::string cur; for (char ch : parts.at(2)) { if (ch == ',') { args.push_back(at[static_cast<std::size_t>(std::stoi(cur))]); cur.clear(); } else cur += ch; } args.push_back(at[static_cast<std::size_t>(std::stoi(cur))]); }
+        std::vector<Ty> args; { const auto at = (arity == 3 || arity >= 5) ? arg_typesV() : arity == 4 ? arg_typesB() : arg_types(); std::string cur; for (char ch : parts.at(2)) { if (ch == ',') { args.push_back(at[static_cast<std::size_t>(std::stoi(cur))]); cur.clear(); } else cur += ch; } args.push_back(at[static_cast<std::size_t>(std::stoi(cur))]); }
         const int hint = parts.size() > 3 && !parts[3].empty() ? std::stoi(parts[3].substr(1)) : 0;
         std::sort(fam.begin(), fam.end());
         std::string first;
@@ -458,6 +473,7 @@ std::optional<std::string> verif_run_case(verif::Ctx &, const std::string &desc)
 
 void enumerate_variadic(verif::Ctx &ctx);
 void enumerate_bundles(verif::Ctx &ctx);
+void enumerate_depth(verif::Ctx &ctx);
 void verif_enumerate(verif::Ctx &ctx)
 {
     const bool th = ctx.thorough();
@@ -514,6 +530,7 @@ void verif_enumerate(verif::Ctx &ctx)
     }
     enumerate_variadic(ctx);
     enumerate_bundles(ctx);
+    enumerate_depth(ctx);
 }
 
 void enumerate_variadic(verif::Ctx &ctx)
@@ -559,6 +576,52 @@ void enumerate_variadic(verif::Ctx &ctx)
                 ctx.violation(desc, *v, "variadic: " + v->substr(v->find("] ") == std::string::npos ? 0 : v->find("] ") + 2, 60));
             }
             else if (ctx.evaluations % 9973 == 1) ctx.sample("cases", desc + " => " + sig);
+        }
+    }
+}
+
+void enumerate_depth(verif::Ctx &ctx)
+{
+    const std::size_t n = candidatesD(false).size(), na = arg_typesV().size();
+    std::vector<std::vector<int>> families;
+    std::function<void(std::vector<int> &, std::size_t)> rec = [&](std::vector<int> &cur, std::size_t start) {
+        if (!cur.empty()) families.push_back(cur);
+        if (cur.size() == 3) return;
+        for (std::size_t i = start; i < n; ++i) { cur.push_back(static_cast<int>(i)); rec(cur, i + 1); cur.pop_back(); }
+    };
+    std::vector<int> cur;
+    rec(cur, 0);
+    for (auto &fam : families)
+    {
+        std::string fs; for (std::size_t i = 0; i < fam.size(); ++i) fs += (i ? "," : "") + std::to_string(fam[i]);
+        for (std::size_t a0 = 0; a0 < na; ++a0) for (std::size_t a1 = 0; a1 < na; ++a1)
+        {
+            if (!ctx.next_is_mine()) continue;
+            const std::string d5 = "5|" + fs + "|" + std::to_string(a0) + "," + std::to_string(a1);
+            const std::string d6 = "6|" + fs + "|" + std::to_string(a1) + "," + std::to_string(a0);
+            std::string sig5, sig6;
+            for (int pass = 0; pass < 2; ++pass)
+            {
+                const std::string &desc = pass == 0 ? d5 : d6;
+                ++ctx.evaluations;
+                bool nt = false; std::uint64_t resolves = 0;
+                auto v = run_family_case(desc, pass == 0 ? &sig5 : &sig6, &nt, &resolves);
+                ctx.transitions += resolves; ctx.traces += resolves;
+                ctx.state(desc.substr(0, 1) + "|" + fs + "|" + (pass == 0 ? sig5 : sig6));
+                if (nt) ctx.nontriv(desc);
+                ctx.count("families_depth");
+                if (v)
+                {
+                    auto v2 = run_family_case(desc);
+                    if (!v2 || *v2 != *v) throw verif::HarnessError("case not reproducible: " + desc);
+                    ctx.violation(desc, *v, "depth: " + v->substr(v->find("] ") == std::string::npos ? 0 : v->find("] ") + 2, 60));
+                }
+            }
+            std::string m6 = sig6;
+            m6.erase(std::remove(m6.begin(), m6.end(), '~'), m6.end());
+            if (sig5 != m6)
+                ctx.violation(d5, "the family resolves to " + sig5 + " but the same candidates with their two parameters (and the arguments) exchanged resolve to " + sig6 + " (" + d6 + "): specificity depends on the order in which parameters are listed",
+                              "depth: outcome changes when parameters are listed in the other order");
         }
     }
 }
